@@ -52,7 +52,7 @@ func isAlnum(c byte) bool {
 	return vpOr(vpOr(vpAnd(c >= 'a', c <= 'z'), vpAnd(c >= 'A', c <= 'Z')), vpAnd(c >= '0', c <= '9'))
 }
 
-var vpPwLens = []int{0, 3, 65, 1, 8, 64}
+var vpPwLens = []int{0, 3, 65, 64}
 
 func vpPwLen(label string) int {
 	if vpTier() == 0 {
